@@ -354,6 +354,10 @@ class JsonSchemaParser:
 
             if items is False:
                 addition = False
+                # the Options of a type give way to those of an enclosing data class (whose additionalProperties
+                # would then admit extra items): also state the limit as a constraint of the type itself
+                constraints = dict(constraints or {})
+                constraints['max_length'] = min(len(prefix_items), constraints.get('max_length', len(prefix_items)))
             elif items:
                 addition = self.parse_type(items, with_constraints=True)
 
